@@ -69,7 +69,11 @@ func runC17(raw json.RawMessage) (interface{}, error) {
 			var md msg.MetricData
 			if md.InitFromMsg(dec) == nil && md.DecodeMetricData() == nil {
 				for _, m := range md.Metrics {
-					p.Points = append(p.Points, [3]string{m.Name, strconv.FormatFloat(m.Value, 'f', -1, 64), fmt.Sprintf("%d", m.Time)})
+					series := m.Name // the series: name plus its (sorted) tags
+					if len(m.Tags) > 0 {
+						series += ";" + strings.Join(m.Tags, ";")
+					}
+					p.Points = append(p.Points, [3]string{series, strconv.FormatFloat(m.Value, 'f', -1, 64), fmt.Sprintf("%d", m.Time)})
 				}
 			}
 		}
